@@ -3,8 +3,8 @@ package props
 import (
 	"fmt"
 	"go/token"
-	"strings"
 	"go/types"
+	"strings"
 
 	"golang.org/x/tools/go/ssa"
 
